@@ -14,7 +14,7 @@ SOURCES = ["src/asyncio_taskpool/control/server.py", "src/asyncio_taskpool/contr
            "src/asyncio_taskpool/control/client.py", "src/asyncio_taskpool/control/__main__.py"]
 PROOF = {"C19": {"module": "Thm_C19",
                  "theorems": ["C19_serving_until_stop", "C19_clients_served", "C19_disconnect_is_local",
-                              "C19_stop", "C19_socket_file"],
+                              "C19_stop", "C19_socket_file", "C19_restart"],
                  "files": ["srv/SModel.v", "srv/SProofs.v", "srv/Thm_C19.v"]}}
 TRUSTED = [
     "Coq 8.16.1 kernel (coqc; coqchk in the thorough tier); no native_compute",
@@ -48,7 +48,11 @@ def gen_labels(rng, max_len):
         elif x < 0.9 and not stopped:
             labels.append("stop"); stopped = True
         elif x < 0.93:
+            # a start while the server runs is a no-op for the harness; after a stop it is a
+            # restart of the same server object (takes effect once the serving task has completed)
             labels.append("start")
+            if stopped and rng.random() < 0.7:
+                stopped = False
         else:
             labels.append("connect"); nconn += 1
     if not stopped and rng.random() < 0.8:
@@ -103,7 +107,16 @@ def job_random(seed, count, max_len, cli_every):
     for i in range(count):
         kind = rng.choice(["unix", "tcp"])
         labels = gen_labels(rng, max_len)
-        conns = [l for l in labels if l in ("connect", "connectbad")]
+        # the kinds are indexed by *accepted* connection (a refused attempt creates none): which
+        # attempts are accepted is read off the model's own run
+        exp = model(kind, labels)
+        conns, prev = [], 0
+        for l, e in zip(labels, exp):
+            c = e.rsplit("conns=", 1)[1]
+            n = 0 if c == "-" else len(c.split(","))
+            if n > prev:
+                conns.append(l)
+            prev = n
         first = next((j for j, l in enumerate(conns) if l == "connect"), None)
         ck = ["cli" if (cli_every and (i % cli_every == 0) and j == first) else "raw"
               for j in range(len(conns))]
@@ -127,6 +140,11 @@ CORPUS = [
     ("unix", ["start", "connect", "send 0", "leave 0", "stop"], ["cli"]),
     ("tcp", ["start", "connect", "send 0", "send 0", "stop", "leave 0"], ["cli"]),
     ("unix", ["start", "connect", "connect", "send 1", "stop", "leave 0", "send 1"], ["cli", "raw"]),
+    # restart of the same server object after a completed stop
+    ("unix", ["start", "connect", "stop", "leave 0", "start", "connect", "send 1", "stop", "send 1", "connect"],
+     ["raw", "raw"]),
+    ("tcp", ["start", "stop", "start", "connect", "send 0", "stop", "leave 0", "start", "connect", "send 1"],
+     ["raw", "raw"]),
 ]
 
 
